@@ -66,6 +66,7 @@ var registry = map[string]*PropDef{
 			{Pkg: "cmd", Func: "VP_C04_Add", Quick: map[string]int{"tracked": 2, "depth": 2, "complen": 1}, Thorough: map[string]int{"tracked": 2, "depth": 2, "complen": 2}, Share: 1.00},
 			{Pkg: "cmd", Func: "VP_C04_Rm", Quick: map[string]int{"tracked": 2, "depth": 2, "complen": 2, "deepcomplen": 1, "kindchange": 1}, Thorough: map[string]int{"tracked": 2, "depth": 2, "complen": 2}, Share: 1.00},
 			{Pkg: "cmd", Func: "VP_C04_KindChange", Quick: map[string]int{"complen": 1, "depth": 2}, Thorough: map[string]int{"complen": 2, "depth": 2}, Share: 1.00},
+			{Pkg: "cmd", Func: "VP_C04_Three", Quick: map[string]int{}, Thorough: map[string]int{}, Share: 1.00},
 			{Pkg: "cmd", Func: "VP_C04_ReAdd", Quick: map[string]int{"files": 2, "depth": 2, "complen": 1}, Thorough: map[string]int{"files": 2, "depth": 2, "complen": 2}, Share: 1.00},
 		},
 		QuickBudget: 10 * time.Minute, ThoroughBudget: 45 * time.Minute, Assumptions: commonAssumptions,
@@ -114,6 +115,7 @@ var registry = map[string]*PropDef{
 	"C09": {
 		Harnesses: []HarnessDef{
 			{Pkg: "cmd", Func: "VP_C09_Restore", Quick: map[string]int{"tracked": 2, "depth": 2, "complen": 2, "deepcomplen": 1}, Thorough: map[string]int{"tracked": 2, "depth": 2, "complen": 2}, Share: 1.00},
+			{Pkg: "cmd", Func: "VP_C04_Three", Quick: map[string]int{}, Thorough: map[string]int{}, Share: 1.00},
 			{Pkg: "cmd", Func: "VP_C09_RestoreMulti", Quick: map[string]int{}, Thorough: map[string]int{}, Share: 1.00},
 			{Pkg: "cmd", Func: "VP_C09_RestoreStaged", Quick: map[string]int{"files": 1, "depth": 2, "complen": 1}, Thorough: map[string]int{"files": 2, "depth": 2, "complen": 1}, Share: 1.00},
 		},
